@@ -102,7 +102,11 @@ Proof.
       * destruct la as [|[fd|b|nm] la]; try (revert Hs; cbn; unfold fd_step; rewrite Hd; intros Hs; inversion Hs; subst; right; exact HF).
         rewrite fd_in_enroll, Hd in Hs. inversion Hs; subst.
         destruct (Led_fresh _ _ _ _ _ fd Hd HF) as [Hx|[_ [Hx _]]]; [left|right]; exact Hx.
-      * rewrite fd_in_other in Hs; auto. inversion Hs; subst. right. exact HF.
+      * destruct (String.eqb_spec ln "dial") as [->|H4].
+        -- destruct la as [|[fd|b|nm] la]; try (revert Hs; cbn; unfold fd_step; rewrite Hd; intros Hs; inversion Hs; subst; right; exact HF).
+           rewrite fd_in_dial, Hd in Hs. inversion Hs; subst.
+           destruct (Led_fresh _ _ _ _ _ fd Hd HF) as [Hx|[_ [Hx _]]]; [left|right]; exact Hx.
+        -- rewrite fd_in_other in Hs; auto. inversion Hs; subst. right. exact HF.
 Qed.
 
 Section World.
